@@ -123,7 +123,8 @@ example :
       [(0, []), (1, [2]), (2, [1]), (3, [1, 1]), (1, [3]), (3, [1, 2]), (2, [3]), (3, [3, 3])]
     (sched.foldl (fun s p => Kpn.stepFn diamond p.1 p.2 s) s0).h = Kpn.eval diamond [] := by decide
 
-/-- **Retiring blocks.** Both runners stop calling a block once its `eof()` has answered true after a wait verdict.
+/-- **Retiring blocks.** Both runners stop calling a block once its `eof()` has answered true after a wait verdict,
+or once the wait it reported can never be satisfied (the named stream's peer is gone and too little is left).
 With the set of retired blocks added to the graph state (a retired block takes no more steps): for EVERY
 interleaving of block steps and retirements in which each retirement was *sound* — every stream the block reads
 belongs to an already retired block, the block has consumed all of it and emitted everything its history function
